@@ -93,6 +93,8 @@ theorem tok_rparen {k : Nat} (h : TokIs all k (T .rparen)) : (tokAt all k).end =
   (hT _ h.mem).rparen h.tk
 theorem tok_rbrack {k : Nat} (h : TokIs all k (T .rbrack)) : (tokAt all k).end = (tokAt all k).pos + 1 :=
   (hT _ h.mem).rbrack h.tk
+theorem tok_end {k : Nat} (h : TokIs all k (T .end_)) : (tokAt all k).end = (tokAt all k).pos + 3 :=
+  (hT _ h.mem).end_ h.tk
 theorem tok_param {k : Nat} {n : Bytes} (h : TokIs all k ⟨.param, n⟩) :
     (tokAt all k).end = (tokAt all k).pos + 1 + n.length := by
   have h1 := (hT _ h.mem).param h.tk
@@ -131,6 +133,24 @@ theorem ntok_index_some (e ix : Expr) (k : PosKw) (sp : Bytes) :
   simp [ntok, yield]; omega
 theorem ntoks_cons (e : Expr) (es : Exprs) : ntoks (.cons e es) = 1 + ntok e + ntoks es := by
   simp [ntok, ntoks, yields]; omega
+theorem ntok_cast (e : Expr) (ns : List Bytes) : ntok (.cast e ns) = 2 + ntok e + 1 + (pathToks ns).length + 1 := by
+  simp [ntok, yield]; omega
+theorem ntok_arr_nil : ntok (.array .nil) = 2 := by simp [ntok, yield]
+theorem ntok_arr_cons (e : Expr) (es : Exprs) : ntok (.array (.cons e es)) = 1 + ntok e + ntoks es + 1 := by
+  simp [ntok, ntoks, yield]; omega
+theorem ntok_ifE (c t e : Expr) : ntok (.ifE c t e) = 2 + ntok c + 1 + ntok t + 1 + ntok e + 1 := by
+  simp [ntok, yield]; omega
+theorem ntok_caseE (o el : OExpr) (c t : Expr) (ws : Whens) :
+    ntok (.caseE o c t ws el) = 1 + ntokO [] o + 1 + ntok c + 1 + ntok t + ntokW ws + ntokO [T .else_] el + 1 := by
+  simp [ntok, ntokO, ntokW, yield]; omega
+theorem ntokW_cons (c t : Expr) (ws : Whens) : ntokW (.cons c t ws) = 1 + ntok c + 1 + ntok t + ntokW ws := by
+  simp [ntok, ntokW, yieldW]; omega
+theorem ntokO_none (pre : List Tok') : ntokO pre .none = 0 := rfl
+theorem ntokO_some (pre : List Tok') (e : Expr) : ntokO pre (.some e) = pre.length + ntok e := by
+  simp [ntokO, ntok, yieldO]
+
+/-- the tokens in front of an optional expression: nothing for the operand of CASE, ELSE for a `CaseElse` -/
+def preKw (kw : Bool) : List Tok' := if kw then [T .else_] else []
 
 /-! ## the invariant -/
 
@@ -147,6 +167,14 @@ theorem PlaceOK.span {all : List Token} {x : Expr} {i : Nat} (h : PlaceOK all x 
 structure PlacesOK (all : List Token) (es : Exprs) (i : Nat) : Prop where
   spans : ∃ idx, spansP (placesG (pe all) es i).1 = idx.map (spanOf all) ∧ Chain i (i + ntoks es) idx
   nodes : ∀ d, ∀ n ∈ nodesPs d (placesG (pe all) es i).1, NodeIn all i (i + ntoks es) n
+
+structure PlaceWOK (all : List Token) (ws : Whens) (i : Nat) : Prop where
+  spans : ∃ idx, spansW (placeW (pe all) ws i).1 = idx.map (spanOf all) ∧ Chain i (i + ntokW ws) idx
+  nodes : ∀ d, ∀ n ∈ nodesPW d (placeW (pe all) ws i).1, NodeIn all i (i + ntokW ws) n
+
+structure PlaceOOK (all : List Token) (kw : Bool) (o : OExpr) (i : Nat) : Prop where
+  spans : ∃ idx, spanO kw (placeO (pe all) kw o i).1 = idx.map (spanOf all) ∧ Chain i (i + ntokO (preKw kw) o) idx
+  nodes : ∀ d, ∀ n ∈ nodesPO kw d (placeO (pe all) kw o i).1, NodeIn all i (i + ntokO (preKw kw) o) n
 
 /-- a leaf of `k` tokens (1, or 2 for a numeric literal with a folded sign) -/
 theorem leaf_ok {all : List Token} {x : Expr} {i k : Nat} {pe' : PExpr}
@@ -195,6 +223,32 @@ theorem placeIds_ok {all : List Token} (ns : List Bytes) (k : Nat) :
       · congr 2; omega
 
 
+/-- the `NamedType` of a CAST (first identifier at index `j`) and its `Ident`s -/
+theorem placePath_ok {all : List Token} (a : Bytes) (ns : List Bytes) (j d : Nat) :
+    posCT (placePath (pe all) (a :: ns) j).1 = (tokAt all j).pos ∧
+    endCT (placePath (pe all) (a :: ns) j).1 = (tokAt all (j + (1 + 2 * ns.length) - 1)).end ∧
+    ∀ n ∈ nodesCT d (placePath (pe all) (a :: ns) j).1, NodeIn all j (j + (1 + 2 * ns.length)) n := by
+  obtain ⟨idx, h1, h2, h3, h4⟩ := placeIds_ok (all := all) ns (j + 1)
+  have hend : endCT (placePath (pe all) (a :: ns) j).1 = (tokAt all (j + (1 + 2 * ns.length) - 1)).end := by
+    simp only [placePath, endCT]
+    rw [h4]
+    split
+    · rename_i hns; subst hns; simp [identAt]
+    · congr 2; omega
+  refine ⟨by simp [placePath, posCT, identAt], hend, ?_⟩
+  intro n hn
+  simp only [placePath, nodesCT, List.mem_cons] at hn
+  rcases hn with rfl | hn
+  · refine NodeIn.head (by omega) (by simp [posCT, identAt]) ?_ ((j, j + 1) :: idx) ?_ ?_
+    · simp only [placePath] at hend; exact hend
+    · simp only [List.map_cons, h1]; rfl
+    · simp only [Chain]
+      exact ⟨Nat.le_refl _, by omega, h2.mono (Nat.le_refl _) (by omega)⟩
+  · simp only [List.map_cons, List.mem_cons] at hn
+    rcases hn with rfl | hn
+    · exact (identNode_in (d + 1) j a).mono (Nat.le_refl _) (by omega)
+    · exact (h3 (d + 1) n hn).mono (by omega) (by omega)
+
 /-! ## the main induction -/
 
 theorem chain1 {lo hi a b : Nat} (h1 : lo ≤ a) (h2 : a < b) (h3 : b ≤ hi) : Chain lo hi [(a, b)] := by
@@ -205,6 +259,25 @@ theorem chain2 {lo hi a b c d : Nat} (h1 : lo ≤ a) (h2 : a < b) (h3 : b ≤ c)
 theorem chain3 {lo hi a b c d e f : Nat} (h1 : lo ≤ a) (h2 : a < b) (h3 : b ≤ c) (h4 : c < d) (h5 : d ≤ e) (h6 : e < f)
     (h7 : f ≤ hi) : Chain lo hi [(a, b), (c, d), (e, f)] := by
   simp only [Chain]; omega
+
+/-- one `CaseWhen` node (WHEN at index `iw`) with the nodes of its two operands -/
+theorem when_ok {all : List Token} {c t : Expr} {iw d : Nat} (IHc : PlaceOK all c (iw + 1))
+    (IHt : PlaceOK all t (iw + 1 + ntok c + 1)) :
+    ∀ n ∈ (⟨d, "CaseWhen", (tokAt all iw).pos, endP (placeG (pe all) t (iw + 1 + ntok c + 1)).1,
+          [("When", (tokAt all iw).pos)],
+          [spanP (placeG (pe all) c (iw + 1)).1, spanP (placeG (pe all) t (iw + 1 + ntok c + 1)).1]⟩ ::
+        (nodesP (d + 1) (placeG (pe all) c (iw + 1)).1 ++ nodesP (d + 1) (placeG (pe all) t (iw + 1 + ntok c + 1)).1) :
+          List NodeInfo),
+      NodeIn all iw (iw + 1 + ntok c + 1 + ntok t) n := by
+  intro n hn
+  have hpc := IHc.npos; have hpt := IHt.npos
+  simp only [List.mem_cons, List.mem_append] at hn
+  rcases hn with rfl | hn | hn
+  · refine NodeIn.head (by omega) rfl ?_ [(iw + 1, iw + 1 + ntok c), (iw + 1 + ntok c + 1, iw + 1 + ntok c + 1 + ntok t)]
+      (by simp [IHc.span, IHt.span]) (chain2 (by omega) (by omega) (by omega) (by omega) (Nat.le_refl _))
+    simp only [IHt.end_]
+  · exact (IHc.nodes (d + 1) n hn).mono (by omega) (by omega)
+  · exact (IHt.nodes (d + 1) n hn).mono (by omega) (Nat.le_refl _)
 
 set_option linter.unusedSimpArgs false
 set_option linter.unusedSectionVars false
@@ -533,6 +606,159 @@ theorem place_ok : (x : Expr) → (i : Nat) → Pre all i (yield x) → nf x = t
         by simp, by simp only [pe_fst, Nat.add_sub_cancel, hrpe],
         [(i + ntok e + 3, i + ntok e + 3 + ntok ix)], by simp [IHx.span], chain1 (by omega) (by omega) (by omega)⟩
     · exact (IHx.nodes (d + 2) n hn).mono (by omega) (by rw [ntok_index_some]; omega)
+  | .ifE c t e, i, hpre, hnf => by
+    simp only [yield, Pre_cons', Pre_append, Pre_nil, and_true, yield_length] at hpre
+    obtain ⟨_, _, hc, _, ht, _, he, hrp⟩ := hpre
+    simp only [nf, Bool.and_eq_true] at hnf
+    have e2 : i + 1 + 1 = i + 2 := by omega
+    rw [e2] at hc ht he hrp
+    have IHc := place_ok c (i + 2) hc hnf.1.1
+    have IHt := place_ok t (i + 2 + ntok c + 1) ht hnf.1.2
+    have IHe := place_ok e (i + 2 + ntok c + 1 + ntok t + 1) he hnf.2
+    have hsc := placeG_snd (pe all) c (i + 2)
+    have hst := placeG_snd (pe all) t (i + 2 + ntok c + 1)
+    have hse := placeG_snd (pe all) e (i + 2 + ntok c + 1 + ntok t + 1)
+    have hrpe := tok_rparen hT hrp
+    have hend : endP (placeG (pe all) (.ifE c t e) i).1 = (tokAt all (i + ntok (.ifE c t e) - 1)).end := by
+      simp only [placeG, endP, hsc, hst, hse, pe_fst, ntok_ifE]
+      rw [show i + (2 + ntok c + 1 + ntok t + 1 + ntok e + 1) - 1 = i + 2 + ntok c + 1 + ntok t + 1 + ntok e by omega, hrpe]
+    have hp1 := IHc.npos; have hp2 := IHt.npos; have hp3 := IHe.npos
+    refine ⟨by simp [placeG, posP], hend, by rw [ntok_ifE]; omega, ?_⟩
+    intro d n hn
+    simp only [placeG, nodesP, List.mem_cons, List.mem_append, hsc, hst, hse] at hn
+    rcases hn with rfl | hn | hn | hn
+    · refine NodeIn.head (by rw [ntok_ifE]; omega) (by simp) ?_
+        [(i + 2, i + 2 + ntok c), (i + 2 + ntok c + 1, i + 2 + ntok c + 1 + ntok t),
+          (i + 2 + ntok c + 1 + ntok t + 1, i + 2 + ntok c + 1 + ntok t + 1 + ntok e)]
+        (by simp [IHc.span, IHt.span, IHe.span, hsc, hst]) ?_
+      · simp only [placeG, endP, hsc, hst, hse] at hend; exact hend
+      · exact chain3 (by omega) (by omega) (by omega) (by omega) (by omega) (by omega) (by rw [ntok_ifE]; omega)
+    · exact (IHc.nodes (d + 1) n hn).mono (by omega) (by rw [ntok_ifE]; omega)
+    · exact (IHt.nodes (d + 1) n hn).mono (by omega) (by rw [ntok_ifE]; omega)
+    · exact (IHe.nodes (d + 1) n hn).mono (by omega) (by rw [ntok_ifE]; omega)
+  | .cast e [], i, _, hnf => by simp [nf, nfT] at hnf
+  | .cast e (a :: ns), i, hpre, hnf => by
+    simp only [yield, Pre_cons', Pre_append, Pre_nil, and_true, yield_length] at hpre
+    obtain ⟨_, _, he, _, _, hrp⟩ := hpre
+    simp only [nf, Bool.and_eq_true] at hnf
+    have e2 : i + 1 + 1 = i + 2 := by omega
+    rw [e2] at he hrp
+    have hL : (pathToks (a :: ns)).length = 1 + 2 * ns.length := pathToks_length a ns
+    rw [hL] at hrp
+    have IHe := place_ok e (i + 2) he hnf.1
+    have hse := placeG_snd (pe all) e (i + 2)
+    have hsp := placePath_snd (pe all) (a :: ns) (i + 2 + ntok e + 1)
+    rw [hL] at hsp
+    obtain ⟨hpp, hpe, hpn⟩ := placePath_ok (all := all) a ns (i + 2 + ntok e + 1) 0
+    have hrpe := tok_rparen hT hrp
+    have hend : endP (placeG (pe all) (.cast e (a :: ns)) i).1 = (tokAt all (i + ntok (.cast e (a :: ns)) - 1)).end := by
+      simp only [placeG, endP, hse, hsp, pe_fst, ntok_cast, hL]
+      rw [show i + (2 + ntok e + 1 + (1 + 2 * ns.length) + 1) - 1 = i + 2 + ntok e + 1 + (1 + 2 * ns.length) by omega, hrpe]
+    have hp1 := IHe.npos
+    refine ⟨by simp [placeG, posP], hend, by rw [ntok_cast]; omega, ?_⟩
+    intro d n hn
+    simp only [placeG, nodesP, List.mem_cons, List.mem_append, hse, hsp] at hn
+    rcases hn with rfl | hn | hn
+    · refine NodeIn.head (by rw [ntok_cast]; omega) (by simp) ?_
+        [(i + 2, i + 2 + ntok e), (i + 2 + ntok e + 1, i + 2 + ntok e + 1 + (1 + 2 * ns.length))] ?_ ?_
+      · simp only [placeG, endP, hse, hsp] at hend; exact hend
+      · simp only [List.map_cons, List.map_nil, IHe.span, spanOf, hpp, hpe]
+      · exact chain2 (by omega) (by omega) (by omega) (by omega) (by rw [ntok_cast, hL]; omega)
+    · exact (IHe.nodes (d + 1) n hn).mono (by omega) (by rw [ntok_cast]; omega)
+    · exact ((placePath_ok (all := all) a ns (i + 2 + ntok e + 1) (d + 1)).2.2 n hn).mono (by omega)
+        (by rw [ntok_cast, hL]; omega)
+  | .array .nil, i, hpre, _ => by
+    simp only [yield, Pre_cons', Pre_nil, and_true] at hpre
+    obtain ⟨_, hrb⟩ := hpre
+    have hrbe := tok_rbrack hT hrb
+    have hend : endP (placeG (pe all) (.array .nil) i).1 = (tokAt all (i + ntok (.array .nil) - 1)).end := by
+      simp only [placeG, endP, pe_fst, ntok_arr_nil]
+      rw [show i + 2 - 1 = i + 1 by omega, hrbe]
+    refine ⟨by simp [placeG, posP], hend, by rw [ntok_arr_nil]; omega, ?_⟩
+    intro d n hn
+    simp only [placeG, nodesP, nodesPs, List.mem_cons, List.not_mem_nil, or_false, List.append_nil] at hn
+    subst hn
+    refine NodeIn.head (by rw [ntok_arr_nil]; omega) (by simp) ?_ [] (by simp [spansP]) (by simp only [Chain]; omega)
+    simp only [placeG, endP] at hend; exact hend
+  | .array (.cons e es), i, hpre, hnf => by
+    simp only [yield, Pre_cons', Pre_append, Pre_nil, and_true, yield_length, yields_length] at hpre
+    obtain ⟨_, he, hes, hrb⟩ := hpre
+    simp only [nf, nfs, Bool.and_eq_true] at hnf
+    have IHe := place_ok e (i + 1) he hnf.1
+    have IHs := places_ok es (i + 1 + ntok e) hes hnf.2
+    have hse := placeG_snd (pe all) e (i + 1)
+    have hss := placesG_snd (pe all) es (i + 1 + ntok e)
+    have hrbe := tok_rbrack hT hrb
+    have hend : endP (placeG (pe all) (.array (.cons e es)) i).1 =
+        (tokAt all (i + ntok (.array (.cons e es)) - 1)).end := by
+      simp only [placeG, endP, hse, hss, pe_fst, ntok_arr_cons]
+      rw [show i + (1 + ntok e + ntoks es + 1) - 1 = i + 1 + ntok e + ntoks es by omega, hrbe]
+    have hp1 := IHe.npos
+    obtain ⟨idx, hidx, hchain⟩ := IHs.spans
+    have hcl := hchain.le
+    refine ⟨by simp [placeG, posP], hend, by rw [ntok_arr_cons]; omega, ?_⟩
+    intro d n hn
+    simp only [placeG, nodesP, nodesPs, List.mem_cons, List.mem_append, hse, hss] at hn
+    rcases hn with rfl | hn | hn
+    · refine NodeIn.head (by rw [ntok_arr_cons]; omega) (by simp) ?_ ((i + 1, i + 1 + ntok e) :: idx) ?_ ?_
+      · simp only [placeG, endP, hse, hss] at hend; exact hend
+      · simp only [spansP, List.map_cons, IHe.span, hidx]
+      · simp only [Chain]
+        exact ⟨by omega, by omega, hchain.mono (Nat.le_refl _) (by rw [ntok_arr_cons]; omega)⟩
+    · exact (IHe.nodes (d + 1) n hn).mono (by omega) (by rw [ntok_arr_cons]; omega)
+    · exact (IHs.nodes (d + 1) n hn).mono (by omega) (by rw [ntok_arr_cons]; omega)
+  | .caseE o c t ws el, i, hpre, hnf => by
+    simp only [yield, Pre_cons', Pre_append, Pre_nil, and_true, yield_length] at hpre
+    obtain ⟨_, hO, _, hc, _, ht, hW, hE, hend_⟩ := hpre
+    simp only [nf, Bool.and_eq_true] at hnf
+    have lO : (yieldO [] o).length = ntokO [] o := rfl
+    have lW : (yieldW ws).length = ntokW ws := rfl
+    have lE : (yieldO [T .else_] el).length = ntokO [T .else_] el := rfl
+    rw [lO] at hc ht hW hE hend_
+    rw [lW] at hE hend_
+    rw [lE] at hend_
+    have IHo := placeo_ok false o (i + 1) hO hnf.1.1.1.1
+    have IHc := place_ok c (i + 1 + ntokO [] o + 1) hc hnf.1.1.1.2
+    have IHt := place_ok t (i + 1 + ntokO [] o + 1 + ntok c + 1) ht hnf.1.1.2
+    have IHw := placew_ok ws (i + 1 + ntokO [] o + 1 + ntok c + 1 + ntok t) hW hnf.1.2
+    have IHe := placeo_ok true el (i + 1 + ntokO [] o + 1 + ntok c + 1 + ntok t + ntokW ws) hE hnf.2
+    have hso := placeO_snd (pe all) false o (i + 1)
+    have hsc := placeG_snd (pe all) c (i + 1 + ntokO [] o + 1)
+    have hst := placeG_snd (pe all) t (i + 1 + ntokO [] o + 1 + ntok c + 1)
+    have hsw := placeW_snd (pe all) ws (i + 1 + ntokO [] o + 1 + ntok c + 1 + ntok t)
+    have hse := placeO_snd (pe all) true el (i + 1 + ntokO [] o + 1 + ntok c + 1 + ntok t + ntokW ws)
+    simp only [Bool.false_eq_true, if_false, if_true] at hso hse
+    have hende := tok_end hT hend_
+    have hend : endP (placeG (pe all) (.caseE o c t ws el) i).1 = (tokAt all (i + ntok (.caseE o c t ws el) - 1)).end := by
+      simp only [placeG, endP, hso, hsc, hst, hsw, hse, pe_fst, ntok_caseE]
+      rw [show i + (1 + ntokO [] o + 1 + ntok c + 1 + ntok t + ntokW ws + ntokO [T .else_] el + 1) - 1 =
+        i + 1 + ntokO [] o + 1 + ntok c + 1 + ntok t + ntokW ws + ntokO [T .else_] el by omega, hende]
+    have hp1 := IHc.npos; have hp2 := IHt.npos
+    obtain ⟨idxO, hidxO, hchO⟩ := IHo.spans
+    obtain ⟨idxW, hidxW, hchW⟩ := IHw.spans
+    obtain ⟨idxE, hidxE, hchE⟩ := IHe.spans
+    have hlO := hchO.le; have hlW := hchW.le; have hlE := hchE.le
+    simp only [preKw, Bool.false_eq_true, if_false, if_true] at hchO hchE hlO hlE
+    refine ⟨by simp [placeG, posP], hend, by rw [ntok_caseE]; omega, ?_⟩
+    intro d n hn
+    simp only [placeG, nodesP, List.mem_cons, List.mem_append, hso, hsc, hst, hsw, hse] at hn
+    rcases hn with rfl | hn | hn | hn | hn | hn | hn
+    · refine NodeIn.head (by rw [ntok_caseE]; omega) (by simp) ?_
+        (idxO ++ ((i + 1 + ntokO [] o, i + 1 + ntokO [] o + 1 + ntok c + 1 + ntok t) :: (idxW ++ idxE))) ?_ ?_
+      · simp only [placeG, endP, hso, hsc, hst, hsw, hse] at hend; exact hend
+      · simp only [hidxO, hidxW, hidxE, List.map_append, List.map_cons, spanOf, pe_fst, IHt.end_]
+      · refine (hchO.mono (by omega) (Nat.le_refl _)).append ?_
+        simp only [Chain]
+        refine ⟨Nat.le_refl _, by omega, hchW.append (hchE.mono (Nat.le_refl _) (by rw [ntok_caseE]; omega))⟩
+    · exact (IHo.nodes (d + 1) n hn).mono (by omega) (by rw [ntok_caseE]; simp only [preKw]; simp; omega)
+    · exact (when_ok IHc IHt n (by simp only [List.mem_cons, List.mem_append, pe_fst]; exact Or.inl hn)).mono (by omega)
+        (by rw [ntok_caseE]; omega)
+    · exact (when_ok IHc IHt n (by simp only [List.mem_cons, List.mem_append]; exact Or.inr (Or.inl hn))).mono (by omega)
+        (by rw [ntok_caseE]; omega)
+    · exact (when_ok IHc IHt n (by simp only [List.mem_cons, List.mem_append]; exact Or.inr (Or.inr hn))).mono (by omega)
+        (by rw [ntok_caseE]; omega)
+    · exact (IHw.nodes (d + 1) n hn).mono (by omega) (by rw [ntok_caseE]; omega)
+    · exact (IHe.nodes (d + 1) n hn).mono (by omega) (by rw [ntok_caseE]; simp only [preKw]; simp; omega)
 theorem places_ok : (es : Exprs) → (i : Nat) → Pre all i (yields es) → nfs es = true → PlacesOK all es i
   | .nil, i, _, _ => ⟨⟨[], by simp [placesG, spansP], by simp [Chain]⟩, by simp [placesG, nodesPs]⟩
   | .cons e es, i, hpre, hnf => by
@@ -553,6 +779,68 @@ theorem places_ok : (es : Exprs) → (i : Nat) → Pre all i (yields es) → nfs
       rcases hn with hn | hn
       · exact (IHe.nodes d n hn).mono (by omega) (by rw [ntoks_cons]; omega)
       · exact (IHs.nodes d n hn).mono (by omega) (by rw [ntoks_cons]; omega)
+theorem placew_ok : (ws : Whens) → (i : Nat) → Pre all i (yieldW ws) → nfw ws = true → PlaceWOK all ws i
+  | .nil, i, _, _ => ⟨⟨[], by simp [placeW, spansW], by simp [Chain]⟩, by simp [placeW, nodesPW]⟩
+  | .cons c t ws, i, hpre, hnf => by
+    simp only [yieldW, Pre_cons', Pre_append, yield_length] at hpre
+    obtain ⟨_, hc, _, ht, hW⟩ := hpre
+    simp only [nfw, Bool.and_eq_true] at hnf
+    have IHc := place_ok c (i + 1) hc hnf.1.1
+    have IHt := place_ok t (i + 1 + ntok c + 1) ht hnf.1.2
+    have IHw := placew_ok ws (i + 1 + ntok c + 1 + ntok t) hW hnf.2
+    have hsc := placeG_snd (pe all) c (i + 1)
+    have hst := placeG_snd (pe all) t (i + 1 + ntok c + 1)
+    obtain ⟨idx, hidx, hchain⟩ := IHw.spans
+    have hp1 := IHc.npos; have hp2 := IHt.npos
+    refine ⟨⟨(i, i + 1 + ntok c + 1 + ntok t) :: idx, ?_, ?_⟩, ?_⟩
+    · simp only [placeW, spansW, hsc, hst, List.map_cons, hidx, spanOf, pe_fst, IHt.end_]
+    · simp only [Chain, ntokW_cons]
+      exact ⟨Nat.le_refl _, by omega, hchain.mono (Nat.le_refl _) (by omega)⟩
+    · intro d n hn
+      simp only [placeW, nodesPW, List.mem_cons, List.mem_append, hsc, hst] at hn
+      rcases hn with rfl | hn | hn | hn
+      · exact (when_ok IHc IHt _ (by simp only [List.mem_cons, pe_fst]; exact Or.inl rfl)).mono (Nat.le_refl _)
+          (by rw [ntokW_cons]; omega)
+      · exact (when_ok (d := d) IHc IHt n (by simp only [List.mem_cons, List.mem_append]; exact Or.inr (Or.inl hn))).mono
+          (Nat.le_refl _) (by rw [ntokW_cons]; omega)
+      · exact (when_ok (d := d) IHc IHt n (by simp only [List.mem_cons, List.mem_append]; exact Or.inr (Or.inr hn))).mono
+          (Nat.le_refl _) (by rw [ntokW_cons]; omega)
+      · exact (IHw.nodes d n hn).mono (by omega) (by rw [ntokW_cons]; omega)
+theorem placeo_ok (kw : Bool) : (o : OExpr) → (i : Nat) → Pre all i (yieldO (preKw kw) o) → nfo o = true →
+    PlaceOOK all kw o i
+  | .none, i, _, _ => ⟨⟨[], by simp [placeO, spanO], by simp [Chain]⟩, by simp [placeO, nodesPO]⟩
+  | .some e, i, hpre, hnf => by
+    simp only [nfo] at hnf
+    cases kw with
+    | false =>
+      simp only [yieldO, preKw, Bool.false_eq_true, if_false, List.nil_append] at hpre
+      have IH := place_ok e i hpre hnf
+      have hp := IH.npos
+      refine ⟨⟨[(i, i + ntok e)], ?_, ?_⟩, ?_⟩
+      · simp only [placeO, spanO, nb, Bool.false_eq_true, if_false, Nat.add_zero, List.map_cons, List.map_nil]
+        exact congrArg (fun x => [x]) IH.span
+      · simp only [preKw, Bool.false_eq_true, if_false, ntokO_some, List.length_nil, Nat.zero_add]
+        exact chain1 (Nat.le_refl _) (by omega) (Nat.le_refl _)
+      · intro d n hn
+        simp only [placeO, nodesPO, nb, Bool.false_eq_true, if_false, Nat.add_zero] at hn
+        simp only [preKw, Bool.false_eq_true, if_false, ntokO_some, List.length_nil, Nat.zero_add]
+        exact IH.nodes d n hn
+    | true =>
+      simp only [yieldO, preKw, if_true, List.cons_append, List.nil_append, Pre_cons'] at hpre
+      obtain ⟨_, he⟩ := hpre
+      have IH := place_ok e (i + 1) he hnf
+      have hp := IH.npos
+      refine ⟨⟨[(i, i + 1 + ntok e)], ?_, ?_⟩, ?_⟩
+      · simp only [placeO, spanO, nb, if_true, List.map_cons, List.map_nil, spanOf, pe_fst, IH.end_]
+      · simp only [preKw, if_true, ntokO_some, List.length_cons, List.length_nil]
+        exact chain1 (Nat.le_refl _) (by omega) (by omega)
+      · intro d n hn
+        simp only [placeO, nodesPO, nb, if_true, List.mem_cons] at hn
+        simp only [preKw, if_true, ntokO_some, List.length_cons, List.length_nil]
+        rcases hn with rfl | hn
+        · refine NodeIn.head (by omega) (by simp) (by simp only [IH.end_]; congr 2; omega) [(i + 1, i + 1 + ntok e)]
+            (by simp [IH.span]) (chain1 (by omega) (by omega) (by omega))
+        · exact (IH.nodes (d + 1) n hn).mono (by omega) (by omega)
 end
 
 end main
